@@ -1197,13 +1197,18 @@ func famImportNames(t *tgen) {
 	if !dot && !strings.Contains(imp, " ") && t.ch(0.4) {
 		// a blank import of another package that declares the same name: when the last element of the first path is
 		// not its package name (go-foo declares foo), the clash shows only once the package names are known
-		twin := fmt.Sprintf("_ \"exp/%s/x/%s\"", t.name, pname)
+		// the twin's path sorts behind or before the other import's
+		tdir := "x"
+		if len(t.name)%2 == 0 || strings.HasSuffix(t.name, "1") || strings.HasSuffix(t.name, "4") || strings.HasSuffix(t.name, "7") {
+			tdir = "a"
+		}
+		twin := fmt.Sprintf("_ \"exp/%s/%s/%s\"", t.name, tdir, pname)
 		if t.ch(0.5) {
 			imps = append(imps, twin)
 		} else {
 			imps = []string{twin, imp}
 		}
-		t.files[t.name+"/x/"+pname+"/twin.go"] = fmt.Sprintf("package %s\n\nvar Twin = 1\n", pname)
+		t.files[t.name+"/"+tdir+"/"+pname+"/twin.go"] = fmt.Sprintf("package %s\n\nvar Twin = 1\n", pname)
 		t.feat("blank-import-of-a-same-named-package")
 	}
 	sb.WriteString(header(t, imps...))
